@@ -2,9 +2,7 @@ package main
 
 import (
 	"6502profiler/cpu"
-	"bufio"
 	"fmt"
-	"os"
 	"strconv"
 	"strings"
 	"verifharness/internal/bus"
@@ -284,27 +282,6 @@ func aluExhaustive() {
 				}
 			}
 		}
-	}
-}
-
-// cpuReplay re-executes the request part of every line of a file
-func cpuReplay(file string) {
-	f, err := os.Open(file)
-	if err != nil {
-		fmt.Fprintln(os.Stderr, err)
-		os.Exit(2)
-	}
-	defer f.Close()
-	sc := bufio.NewScanner(f)
-	sc.Buffer(make([]byte, 1<<20), 1<<24)
-	for sc.Scan() {
-		line := sc.Text()
-		req := strings.SplitN(line, "=>", 2)[0]
-		c, ok := parseRequest(req)
-		if !ok {
-			continue
-		}
-		emit(c.request() + " => " + runGo(c))
 	}
 }
 
